@@ -52,6 +52,9 @@ enum Reach {
     Mbuff,
     /// EbpfVmNoData + register_allowed_memory + lddw r1, <address> (interpreter only)
     Allowed,
+    /// the packet of a fixed-metadata VM: the program first loads the packet address from the slot
+    /// the VM keeps in its own buffer (data offset 0x40, end offset 0x50)
+    Fixed,
 }
 impl Reach {
     fn name(self) -> &'static str {
@@ -59,6 +62,7 @@ impl Reach {
             Reach::RawPacket => "raw_packet",
             Reach::Mbuff => "mbuff",
             Reach::Allowed => "allowed_memory",
+            Reach::Fixed => "fixed_mbuff_packet",
         }
     }
     fn parse(s: &str) -> Option<Reach> {
@@ -66,6 +70,7 @@ impl Reach {
             "raw_packet" => Reach::RawPacket,
             "mbuff" => Reach::Mbuff,
             "allowed_memory" => Reach::Allowed,
+            "fixed_mbuff_packet" => Reach::Fixed,
             _ => return None,
         })
     }
@@ -86,6 +91,10 @@ struct Add {
     /// the source register IS the base register (`xadd [rX+d], rX`): the addend is the base
     /// register's value, i.e. an address — resolved per process, such runs are not hashed
     src_is_base: bool,
+    /// how the source register comes to hold the addend: 0 = loaded directly; 1 = lddw of garbage
+    /// in the upper half, then or32 0; 2 = the same with add32 0; 3 = stored to the stack
+    /// and loaded back; 4 = garbage upper half, then lsh 32 / arsh 32 (sign extension of the low half)
+    src_shape: u8,
     /// straight-line programs only: a register is computed right before this add and a conditional
     /// jump on it right after the add decides whether the next adds are executed
     guard: Option<Guard>,
@@ -180,6 +189,8 @@ struct ExecSpec {
     /// in a loop: the counter is decremented at the top of the body, so that only the atomic add
     /// (and the set-up of its operands) lies between the decrement and the back edge testing it
     loop_dec_first: bool,
+    /// this many no-op instructions precede everything else
+    pad: u16,
     /// the adds sit in an eBPF-to-eBPF local function called from main (interpreter and JIT only)
     in_callee: bool,
     /// a helper that overwrites every caller-saved register is called before the adds
@@ -308,11 +319,30 @@ fn body_insns(e: &ExecSpec) -> Vec<[u8; 8]> {
         let src_reg = if a.src_is_base { a.base_reg } else { a.src_reg };
         if a.src_is_base {
             // nothing to load: the addend is whatever the base register holds
+        } else if matches!(a.src_shape, 1 | 2 | 4) {
+            // the upper half is garbage until the 32-bit operation / the shifts have run
+            v.push(ins(0x18, a.src_reg, 0, 0, a.addend as u32 as i32));
+            v.push(ins(0, 0, 0, 0, 0x5a5a_a5a5u32 as i32));
+            match a.src_shape {
+                // (not mov32 rS, rS: the x86-64 JIT emits a 64-bit mov for it and keeps the upper half - a
+                // matter of C03, not of this check)
+                1 => v.push(ins(0x44, a.src_reg, 0, 0, 0)), // or32 rS, 0
+                2 => v.push(ins(0x04, a.src_reg, 0, 0, 0)),         // add32 rS, 0
+                _ => {
+                    v.push(ins(0x67, a.src_reg, 0, 0, 32)); // lsh64 rS, 32
+                    v.push(ins(0xc7, a.src_reg, 0, 0, 32)); // arsh64 rS, 32
+                }
+            }
         } else if a.via_lddw {
             v.push(ins(0x18, a.src_reg, 0, 0, a.addend as u32 as i32));
             v.push(ins(0, 0, 0, 0, (a.addend >> 32) as u32 as i32));
         } else {
             v.push(ins(0xb7, a.src_reg, 0, 0, a.addend as i64 as i32));
+        }
+        if a.src_shape == 3 && !a.src_is_base {
+            v.push(ins(0x7b, 10, a.src_reg, -64, 0)); // stxdw [r10-64], rS
+            v.push(ins(0xb7, a.src_reg, 0, 0, 0));
+            v.push(ins(0x79, a.src_reg, 10, -64, 0)); // ldxdw rS, [r10-64]
         }
         let disp = a.off as i32 - a.bias;
         if let Some(g) = guard {
@@ -377,6 +407,14 @@ fn build_program(e: &ExecSpec, region_addr: u64) -> Vec<u8> {
         // lddw r1, region address
         v.push(ins(0x18, 1, 0, 0, region_addr as u32 as i32));
         v.push(ins(0, 0, 0, 0, (region_addr >> 32) as u32 as i32));
+    }
+    if e.reach == Reach::Fixed {
+        // r1 is the VM's own buffer; the packet address is in its data slot
+        v.push(ins(0x79, 1, 1, 0x40, 0));
+    }
+    // unreachable-free padding: the adds then lie beyond 127 / 32767 bytes of machine code
+    for _ in 0..e.pad {
+        v.push(ins(0xbf, 0, 0, 0, 0));
     }
     // r6 = r1 (callee-saved copy of the region address; also a base register with another encoding)
     v.push(ins(0xbf, 6, 1, 0, 0));
@@ -451,6 +489,7 @@ impl Scenario {
                 aj["bias"] = a.bias.into();
                 aj["via_lddw"] = a.via_lddw.into();
                 aj["src_is_base"] = a.src_is_base.into();
+                aj["src_shape"] = a.src_shape.into();
                 aj["aligned"] = aligned(a).into();
                 if let Some(g) = &a.guard {
                     let mut gj = JsonValue::new_object();
@@ -469,6 +508,7 @@ impl Scenario {
             j["loop_n"] = e.loop_n.into();
             j["loop_step"] = e.loop_step.into();
             j["loop_dec_first"] = e.loop_dec_first.into();
+            j["pad"] = e.pad.into();
             j["in_callee"] = e.in_callee.into();
             j["helper_first"] = e.helper_first.into();
             if let Some(c) = &e.stack_check {
@@ -512,6 +552,7 @@ impl Scenario {
                     bias: a["bias"].as_i32()?,
                     via_lddw: a["via_lddw"].as_bool()?,
                     src_is_base: a["src_is_base"].as_bool().unwrap_or(false),
+                    src_shape: a["src_shape"].as_u8().unwrap_or(0),
                     guard: if a["guard"].is_object() {
                         let g = &a["guard"];
                         Some(Guard { pre: g["pre"].as_i32()?, alu: g["alu"].as_u8()?, alu_imm: g["alu_imm"].as_i32()?, jmp: g["jmp"].as_u8()?, jmp_imm: g["jmp_imm"].as_i32()?, skip: g["skip"].as_u8()? })
@@ -528,6 +569,7 @@ impl Scenario {
                 loop_n: e["loop_n"].as_u8().unwrap_or(1).clamp(1, 8),
                 loop_step: e["loop_step"].as_u32().unwrap_or(0),
                 loop_dec_first: e["loop_dec_first"].as_bool().unwrap_or(false),
+                pad: e["pad"].as_u16().unwrap_or(0),
                 in_callee: e["in_callee"].as_bool().unwrap_or(false),
                 helper_first: e["helper_first"].as_bool().unwrap_or(false),
                 stack_check: if e["stack_check"].is_object() {
@@ -604,10 +646,10 @@ fn generate(rng: &mut Rng) -> Scenario {
     for _ in 0..n {
         let engine = *rng.pick(&engines_enabled);
         let reach = match engine {
-            Engine::Interp => *rng.pick(&[Reach::RawPacket, Reach::Mbuff, Reach::Allowed, Reach::Allowed]),
+            Engine::Interp => *rng.pick(&[Reach::RawPacket, Reach::Mbuff, Reach::Allowed, Reach::Allowed, Reach::Fixed]),
             // compiled x86-64 code has no bounds checks: it reaches the word by absolute address too
-            Engine::Jit => *rng.pick(&[Reach::RawPacket, Reach::RawPacket, Reach::Mbuff, Reach::Allowed]),
-            Engine::Cl => *rng.pick(&[Reach::RawPacket, Reach::RawPacket, Reach::Mbuff]),
+            Engine::Jit => *rng.pick(&[Reach::RawPacket, Reach::RawPacket, Reach::Mbuff, Reach::Allowed, Reach::Fixed]),
+            Engine::Cl => *rng.pick(&[Reach::RawPacket, Reach::RawPacket, Reach::Mbuff, Reach::Fixed]),
         };
         let k = rng.range(1, if deep { 6 } else { 4 }) as usize;
         let mut adds = Vec::new();
@@ -697,7 +739,19 @@ fn generate(rng: &mut Rng) -> Scenario {
             } else {
                 None
             };
-            adds.push(Add { width, off, addend, base_reg, src_reg, bias, via_lddw, src_is_base, guard });
+            // the source register may get its value in a roundabout way (only where the value allows)
+            let src_shape = if src_is_base || !rng.chance(1, 4) {
+                0
+            } else {
+                match rng.below(4) {
+                    0 if addend >> 32 == 0 => 1,
+                    1 if addend >> 32 == 0 => 2,
+                    2 => 3,
+                    3 if addend == addend as u32 as i32 as i64 as u64 => 4,
+                    _ => 0,
+                }
+            };
+            adds.push(Add { width, off, addend, base_reg, src_reg, bias, via_lddw, src_is_base, src_shape, guard });
         }
         let tail_load = if rng.chance(1, 2) {
             let s = *rng.pick(&slots);
@@ -723,6 +777,13 @@ fn generate(rng: &mut Rng) -> Scenario {
                 }
             }
         }
+        // rarely a long run of no-ops first: 50 (more than 127 bytes of machine code before the adds)
+        // or 12 000 (more than 32 767 bytes, several code pages)
+        let pad: u16 = match rng.below(if deep { 60 } else { 240 }) {
+            0 => 12000,
+            1..=4 => 50,
+            _ => 0,
+        };
         let in_callee = engine != Engine::Cl && rng.chance(1, 5);
         let helper_first = rng.chance(1, 5);
         let mut loop_step = if loop_n > 1 && adds.len() == 1 && !adds[0].src_is_base && aligned(&adds[0]) && rng.chance(1, 2) { rng.range(1, 1 << 20) as u32 } else { 0 };
@@ -761,7 +822,7 @@ fn generate(rng: &mut Rng) -> Scenario {
                 a.src_reg = *[2u8, 3, 4, 5].iter().find(|r| !reserved(**r)).unwrap();
             }
         }
-        execs.push(ExecSpec { engine, reach, adds, tail_load, loop_n, loop_step, loop_dec_first, in_callee, helper_first, stack_check });
+        execs.push(ExecSpec { engine, reach, adds, tail_load, loop_n, loop_step, loop_dec_first, pad, in_callee, helper_first, stack_check });
     }
     let strategy = match rng.below(3) {
         0 => Strategy::Uniform,
@@ -806,6 +867,7 @@ impl Outcome {
 }
 
 enum Vm {
+    Fixed(rbpf::EbpfVmFixedMbuff<'static>),
     Raw(rbpf::EbpfVmRaw<'static>),
     Mbuff(rbpf::EbpfVmMbuff<'static>),
     NoData(rbpf::EbpfVmNoData<'static>),
@@ -831,11 +893,14 @@ struct RunOutput {
     conc: PassResult,
 }
 
-fn exec_vm(vm: &Vm, engine: Engine, region: (*mut u8, usize)) -> Result<u64, std::io::Error> {
+fn exec_vm(vm: &mut Vm, engine: Engine, region: (*mut u8, usize)) -> Result<u64, std::io::Error> {
     let region_slice = || unsafe { std::slice::from_raw_parts_mut(region.0, region.1) };
     let empty = || unsafe { std::slice::from_raw_parts_mut(std::ptr::NonNull::<u8>::dangling().as_ptr(), 0) };
     unsafe {
         match (vm, engine) {
+            (Vm::Fixed(vm), Engine::Interp) => vm.execute_program(region_slice()),
+            (Vm::Fixed(vm), Engine::Jit) => vm.execute_program_jit(region_slice()),
+            (Vm::Fixed(vm), Engine::Cl) => vm.execute_program_cranelift(region_slice()),
             (Vm::Raw(vm), Engine::Interp) => vm.execute_program(region_slice()),
             (Vm::Raw(vm), Engine::Jit) => vm.execute_program_jit(region_slice()),
             (Vm::Raw(vm), Engine::Cl) => vm.execute_program_cranelift(region_slice()),
@@ -863,7 +928,7 @@ fn worker(me: usize, spec: &ExecSpec, region: (usize, usize), out: &mut ThreadOu
     // ---- phase: build (VM construction and compilation; does not touch the page) ----
     wait_baton(me as i32);
     let prog: &'static [u8] = Box::leak(build_program(spec, region.0 as u64).into_boxed_slice());
-    let built: Result<Vm, String> = (|| {
+    let mut built: Result<Vm, String> = (|| {
         let r = std::panic::catch_unwind(|| -> Result<Vm, std::io::Error> {
             Ok(match spec.reach {
                 Reach::RawPacket => {
@@ -875,6 +940,16 @@ fn worker(me: usize, spec: &ExecSpec, region: (usize, usize), out: &mut ThreadOu
                         Engine::Interp => {}
                     }
                     Vm::Raw(vm)
+                }
+                Reach::Fixed => {
+                    let mut vm = rbpf::EbpfVmFixedMbuff::new(Some(prog), 0x40, 0x50)?;
+                    vm.register_helper(HELPER_KEY, noop_helper)?;
+                    match spec.engine {
+                        Engine::Jit => vm.jit_compile()?,
+                        Engine::Cl => vm.cranelift_compile()?,
+                        Engine::Interp => {}
+                    }
+                    Vm::Fixed(vm)
                 }
                 Reach::Mbuff => {
                     let mut vm = rbpf::EbpfVmMbuff::new(Some(prog))?;
@@ -913,14 +988,14 @@ fn worker(me: usize, spec: &ExecSpec, region: (usize, usize), out: &mut ThreadOu
     pass_baton(CTRL);
     // ---- phase: solo ----
     wait_baton(me as i32);
-    out.solo = match &built {
+    out.solo = match &mut built {
         Ok(vm) => conv(guarded(me, || exec_vm(vm, spec.engine, region))),
         Err(e) => Outcome::NotBuilt(e.clone()),
     };
     finish(me);
     // ---- phase: concurrent ----
     wait_baton(me as i32);
-    out.conc = match &built {
+    out.conc = match &mut built {
         Ok(vm) => conv(guarded(me, || exec_vm(vm, spec.engine, region))),
         Err(e) => Outcome::NotBuilt(e.clone()),
     };
@@ -1356,6 +1431,14 @@ fn summarise(sc: &Scenario, out: &RunOutput, st: &mut Stats) -> (u64, u64, bool)
         if spec.in_callee {
             st.inc("executions_with_xadd_in_local_function", 1);
         }
+        if spec.pad > 0 {
+            st.inc(&format!("executions_with_{}_instructions_before_the_adds", spec.pad), 1);
+        }
+        for a in &spec.adds {
+            if a.src_shape != 0 {
+                st.inc(&format!("source_register_shaped/{}", ["", "or32", "add32", "stack_round_trip", "lsh_arsh"][a.src_shape as usize]), 1);
+            }
+        }
         if spec.helper_first {
             st.inc("executions_with_helper_call_before_xadd", 1);
         }
@@ -1504,6 +1587,7 @@ fn minimise(sc: &Scenario, class: &str) -> (Scenario, usize) {
             cand.execs[t].adds[j].addend = 1;
             cand.execs[t].adds[j].via_lddw = false;
             cand.execs[t].adds[j].src_is_base = false;
+            cand.execs[t].adds[j].src_shape = 0;
             evals += 1;
             let (v, _) = eval(&cand);
             if same_class(&v, class) {
